@@ -1,12 +1,15 @@
 import SurfProofs.Lemmas.Sgr
 import SurfProofs.Lemmas.SgrColorItems
+import SurfProofs.Lemmas.SgrWriter
 /-!
 # C06 — the library reads back its own SGR output and applies it with SGR semantics
 
 `SurfModel.Vt.encode` is the model of the encoder (C05), `SurfModel.Sgr.sgrFace` / `apply` the models
 of the command decoder's SGR payload function and of `FaceModify::apply`; both are tied to the Rust
 code by correspondence on every run.  The tokeniser that frames `ESC [ … m` and UTF-8 text under any
-chunking is the subject of C03; here the payload is what is proved.
+chunking is the subject of C03; `C06_writer` at the end composes it (C03), the command decoder (C02's
+`commandOfItem` over the compiled command automaton), the cell writer (C09's `ttySession`) and the payload
+theorem `C06_apply_sgr` into one statement about coloured text written through `tty_writer()`.
 -/
 namespace SurfProofs.C06
 open SurfModel.Vt SurfModel.Sgr SurfProofs.Lemmas.Vt SurfProofs.Lemmas.Sgr SurfProofs.Lemmas.SgrSem
@@ -227,5 +230,134 @@ example : sgrFace [50, 49] = { underline := some 2 } := by
   have s : splitBy 58 [50, 49] = [[50, 49]] := by decide
   have s2 : splitBy 59 [50, 49] = [[50, 49]] := by decide
   simp [sgrFace, s2, sgrFaceLoop_cons, sgrFaceLoop_nil, sgrFaceStep, n, s]
+
+
+/-! ## ANSI-coloured text through `tty_writer()` -/
+
+open SurfModel.Tokenizer SurfModel.TextLayout SurfModel.Stream SurfModel.Decoders SurfProofs.DecoderStream
+  SurfProofs.Lemmas.SgrWriter
+
+/-- a span of a script: one SGR sequence made of well-formed parameters, or a run of text characters -/
+inductive Span where
+  | sgr (items : List Item)
+  | text (chars : List Nat)
+
+/-- a sequence has at least one parameter, all well-formed (`Item.ok`); text consists of Unicode scalar
+values other than `ESC` -/
+def Span.ok : Span → Prop
+  | .sgr items => items ≠ [] ∧ ∀ it ∈ items, it.ok
+  | .text cs => ∀ c ∈ cs, (c < 0xD800 ∨ (0xE000 ≤ c ∧ c < 0x110000)) ∧ c ≠ 27
+
+/-- parameter bytes of a sequence / the characters -/
+def Span.piece : Span → Piece
+  | .sgr items => .sgr (sgrBytes items)
+  | .text cs => .text cs
+
+/-- the bytes written for a script: `ESC [ <parameters joined by ;> m` for a sequence, UTF-8 for text -/
+def scriptStream (script : List Span) : List UInt8 := scriptBytes (script.map Span.piece)
+
+theorem Span.piece_ok (s : Span) (h : s.ok) : s.piece.Ok := by
+  cases s with
+  | sgr items =>
+    have hg := flat_good (items.map Item.spec)
+      (by intro x hx; obtain ⟨it, hit, rfl⟩ := List.mem_map.mp hx; exact it.spec_ok (h.2 it hit))
+    have := hg.join_bytes
+    simpa [Span.piece, Piece.Ok, sgrBytes, List.flatMap_map] using this
+  | text cs =>
+    intro c hc
+    obtain ⟨h1, h2⟩ := h c hc
+    refine ⟨?_, h2⟩
+    simp only [SurfModel.Payload.isScalar, Bool.or_eq_true, Bool.and_eq_true, decide_eq_true_eq]
+    omega
+
+/-- **C06, writer.** A script — SGR sequences built from well-formed parameters (every parameter a
+face-modification record can express, in every spelling) and runs of text (any Unicode scalar values except
+`ESC`) in any order — is written as bytes through `tty_writer()` into a writer whose current face is any
+face with opaque 8-bit colours, the bytes cut into `write` calls ANYWHERE (inside an escape sequence, inside a
+character, empty writes). Then the whole outcome of the session (model: C09's `ttySession` over C03's tokenizer
+run on a command automaton `A`, C02's `commandOfItem` as payload decoder, `FaceModify::apply` for face
+modifications) is that of the **reference run** `refRun`: the attribute state is folded through the SGR
+sequences by the reference SGR machine (`params?`, `sgrSem`, `applySgr`: each attribute and colour set or
+cleared independently, later parameters override earlier ones, reset restores the default), and every text
+character is put — `put_char`, i.e. `put_cell(Cell::new_char(face, c))` — by a writer whose face is the face of
+the attribute state reached by the sequences that precede the character; the decoder ends empty (nothing
+pending), the writer's face is that of the final attribute state. The session panics only if `put_char` does
+(`none`), which cannot happen on a writer whose window lies inside its backing slice — every writer over a
+view of a surface, `C07_inv` — (second part; `C09_contained`).
+
+`A` is any tagged automaton that realises the command grammar `ESC [ ([0-9:]* ;?)+ m | UTF-8 without ESC`
+(`RealisesCommand`, as in `C02_no_panic_stream_command`: same live words, accepting flags and tag sets as the
+automaton compiled from the model grammar) and reports `terminal` exactly for the states without successor;
+`C06_writer_model` instantiates it with the compiled automaton itself. -/
+theorem C06_writer {σ : Type} (A : TAuto σ) (hR : RealisesCommand A) (hT : TermExact A.toAuto)
+    (script : List Span) (hok : ∀ s ∈ script, s.ok) (wr : Writer) (d : DFace) (hd : FaceOk d)
+    (hf : wr.face = packFace d) (chunks : List (List UInt8)) (hc : chunks.flatten = scriptStream script) :
+    ttySession A.toAuto (ttyInterp A) wr (init A.toAuto) chunks =
+      (match refRun wr (attrOfDFace d) (script.map Span.piece) with
+       | none => .error .panic
+       | some w' => .ok (w', init A.toAuto)) ∧
+    ((∀ r c, r < wr.shape.height → c < wr.shape.width → wr.shape.offset r c < wr.data.length) →
+      ∃ w', refRun wr (attrOfDFace d) (script.map Span.piece) = some w') := by
+  have hpok : ∀ p ∈ script.map Span.piece, p.Ok := by
+    intro p hp
+    obtain ⟨s, hs, rfl⟩ := List.mem_map.mp hp
+    exact s.piece_ok (hok s hs)
+  have hsem : ∀ ps, Piece.sgr ps ∈ script.map Span.piece → SgrSem ps := by
+    intro ps hp
+    obtain ⟨s, hs, he⟩ := List.mem_map.mp hp
+    cases s with
+    | text cs => cases he
+    | sgr items =>
+      simp only [Span.piece, Piece.sgr.injEq] at he
+      subst he
+      intro f
+      exact C06_apply_sgr items (hok _ hs).2 (hok _ hs).1 f
+  refine ⟨tty_script A hR hT _ hpok hsem wr d hd hf chunks hc, ?_⟩
+  intro hsh
+  obtain ⟨w', hw', _⟩ := SurfProofs.Lemmas.TextChunk.applyCmds_contained wr
+    ((((script.map Span.piece).flatMap Piece.events).map Except.ok).map cmdOfEvent) hsh
+  exact ⟨w', by rw [← applyCmds_script _ hsem wr d hd hf]; exact hw'⟩
+
+/-- `C06_writer` for the command automaton compiled from the model grammar (the model of
+`TTY_COMMAND_AUTOMATA`; the dumped production DFA is compared with it by exhaustive bisimulation on every
+run of the C02 check) -/
+theorem C06_writer_model (script : List Span) (hok : ∀ s ∈ script, s.ok) (wr : Writer) (d : DFace) (hd : FaceOk d)
+    (hf : wr.face = packFace d) (chunks : List (List UInt8)) (hc : chunks.flatten = scriptStream script) :
+    ttySession commandModelAuto.toAuto (ttyInterp commandModelAuto) wr (init commandModelAuto.toAuto) chunks =
+      (match refRun wr (attrOfDFace d) (script.map Span.piece) with
+       | none => .error .panic
+       | some w' => .ok (w', init commandModelAuto.toAuto)) ∧
+    ((∀ r c, r < wr.shape.height → c < wr.shape.width → wr.shape.offset r c < wr.data.length) →
+      ∃ w', refRun wr (attrOfDFace d) (script.map Span.piece) = some w') :=
+  C06_writer commandModelAuto commandModelAuto_realises commandModelAuto_termExact script hok wr d hd hf chunks hc
+
+/-- the hypotheses are met: bold red `a世`, then bold off and a blue background, `b` — written into a
+1 × 4 surface; the reference run shows `a`, the wide `世` and `b` with the faces of the SGR machine -/
+def exScript : List Span :=
+  [.sgr [.simple .bold, .rgbSemi .fg 255 0 0], .text [97, 19990], .sgr [.simple .boldOff, .named true false 4], .text [98]]
+def exWriter : Writer :=
+  Writer.new { hasGlyphs := false, ppcH := 1, ppcW := 1, width := fun c => if c = 19990 then 2 else 1 }
+    (SurfModel.Shape.Shape.from 1 4) (List.replicate 4 ⟨SurfModel.TextLayout.Face.dflt, .chr 32⟩)
+
+example : (∀ s ∈ exScript, s.ok) ∧ FaceOk {} ∧ exWriter.face = packFace {} := by
+  refine ⟨?_, ⟨by simp, by simp, by simp⟩, rfl⟩
+  intro s hs
+  simp only [exScript, List.mem_cons, List.not_mem_nil, or_false] at hs
+  rcases hs with rfl | rfl | rfl | rfl
+  · refine ⟨by simp, ?_⟩
+    intro it hit; simp at hit; rcases hit with rfl | rfl <;> simp [Item.ok, Simple.ok]
+  · intro c hc; simp at hc; rcases hc with rfl | rfl <;> omega
+  · refine ⟨by simp, ?_⟩
+    intro it hit; simp at hit; rcases hit with rfl | rfl <;> simp [Item.ok, Simple.ok]
+  · intro c hc; simp at hc; subst hc; omega
+
+/-- … and the reference run on it: `a` and the wide `世` bold (attribute word 8) in red, a skipped column, `b` in
+red on blue, not bold -/
+example : (refRun exWriter (attrOfDFace {}) (exScript.map Span.piece)).map
+    (fun w => w.data.map fun c => (match c.kind with | .chr c => c | _ => 0, c.face.fg, c.face.bg, c.face.attrs)) =
+    some [(97, some 4278190335, none, 8), (19990, some 4278190335, none, 8), (32, none, none, 0),
+      (98, some 4278190335, some 33023, 0)] := by
+  decide +kernel
+
 
 end SurfProofs.C06
